@@ -30,6 +30,9 @@ func c04SockStream(r *core.Rand, t *svc.Term, n int, short bool) (frames [][]byt
 				l = 28 + r.Intn(900)
 			}
 			body = c04Body(r, r.Intn(4), l)
+			if !short && r.Chance(1, 4) {
+				body = c04Body(r, 1, 1023-r.Intn(6)) // maximal wire size: every byte doubles (2060+ bytes for one frame)
+			}
 		case 0x0704:
 			body = []byte{0, 1, 0, 0, 28}
 			body = append(body, c04Body(r, 2, 28)...)
@@ -88,6 +91,22 @@ func c04SockRun(srv *svc.Server, cid int, seed uint64, streamNo int, mode string
 				writes = append(writes, stream[k:k+1])
 			}
 		}
+	case "big-frame-tail-cut":
+		// everything up to k bytes before the end of the LARGEST frame, a pause (so that the server reads it), then the rest
+		big, bigEnd, off := 0, 0, 0
+		for _, f := range frames {
+			off += len(f)
+			if len(f) > big {
+				big, bigEnd = len(f), off
+			}
+		}
+		k := []int{1, 2, 3, 5, 12, 17}[cid%6]
+		if cut := bigEnd - k; cut > 0 {
+			writes = [][]byte{stream[:cut], stream[cut:]}
+		} else {
+			writes = [][]byte{stream}
+		}
+		pause = true
 	default: // random cuts
 		o := 0
 		for o < len(stream) {
@@ -108,6 +127,9 @@ func c04SockRun(srv *svc.Server, cid int, seed uint64, streamNo int, mode string
 			}
 			if pause && i%3 == 0 {
 				time.Sleep(time.Duration(200+pr.Intn(1500)) * time.Microsecond)
+				if mode == "big-frame-tail-cut" {
+					time.Sleep(30 * time.Millisecond)
+				}
 			}
 		}
 	}()
@@ -156,11 +178,11 @@ func c04SockRun(srv *svc.Server, cid int, seed uint64, streamNo int, mode string
 	return viol, false, n, wit
 }
 
-var c04SockModes = []string{"single-write", "1023-byte-writes", "frame-per-write", "frame-per-write-paused", "byte-by-byte", "random-cuts", "random-cuts-2"}
+var c04SockModes = []string{"single-write", "1023-byte-writes", "frame-per-write", "frame-per-write-paused", "byte-by-byte", "random-cuts", "random-cuts-2", "big-frame-tail-cut"}
 
 func c04Socket(c *core.Collector, x *Ctx) {
-	c.Rule = "socket: streams of 1..250 valid unfragmented frames (0x0002/0x0200/0x0704, short or up to 930-byte bodies incl. escape-dense) sent to a live server under 7 write partitions each " +
-		"(single write, 1023-byte writes, frame per write with/without pauses, byte by byte, two random cuttings); oracle: replies on the wire == reference replies of the frames, in order, for every partition. " +
+	c.Rule = "socket: streams of 1..250 valid unfragmented frames (0x0002/0x0200/0x0704, short or up to 930-byte bodies incl. escape-dense) sent to a live server under 8 write partitions each " +
+		"(single write, 1023-byte writes, frame per write with/without pauses, byte by byte, two random cuttings, everything but the last k bytes of the largest frame then the rest); every fourth long-body frame has maximal wire size (1018..1023 special bytes); oracle: replies on the wire == reference replies of the frames, in order, for every partition. " +
 		"evaluation = one frame of one partition; distinct = (stream, partition)"
 	srv, err := svc.Start(func() service.TerminalEventer { return svc.NewRecorder() })
 	if err != nil {
